@@ -76,7 +76,8 @@ type SkelResult struct {
 	Solver                smt.Stats
 	Elapsed               time.Duration
 	SkelError             string
-	Skipped               bool // not explored: the run stopped early (violations confirmed) or passed its deadline
+	ReducedBound          string // non-empty: the case was decided on a smaller bound than planned (stated in the evidence)
+	Skipped               bool   // not explored: the run stopped early (violations confirmed) or passed its deadline
 	SecondOpinion         int
 	ResolveRefusedParams  int
 	sharedTriaged         bool
@@ -625,4 +626,13 @@ func (w *Worker) triageSharedWrite(m *sx.Machine, sk *Skeleton, rs *jsonschema.R
 		return
 	}
 	res.EngineErrors = append(res.EngineErrors, "shared write seen by the engine ("+what+") not confirmed by deep comparison (race test needs a loader-free skeleton)")
+}
+
+func budgetExceeded(r *SkelResult) bool {
+	for _, m := range r.Inconclusive {
+		if m == "path budget exceeded" {
+			return true
+		}
+	}
+	return false
 }
